@@ -37,7 +37,7 @@ def hygiene_grep():
     return bad
 
 
-def lean_check(pid, spec, log):
+def lean_check(pid, spec, log, tier="quick"):
     """build the property module and audit the axioms of every property theorem.
     returns (obligations, discharged, failures[list of str])"""
     theorems = spec["theorems"]
@@ -74,6 +74,13 @@ def lean_check(pid, spec, log):
             failures.append("theorem %s depends on non-standard axioms %s" % (t, extra))
         else:
             discharged += 1
+    if tier == "thorough" and not failures:
+        # independent re-check of the compiled property modules by the toolchain's leanchecker
+        for mod in mods:
+            rc3, out3 = sh(["lake", "env", "leanchecker", mod], cwd=LEAN, timeout=1800)
+            log.append("leanchecker %s: rc=%d %s" % (mod, rc3, out3[-500:]))
+            if rc3 != 0:
+                failures.append("leanchecker rejects %s: %s" % (mod, out3.strip()[-300:]))
     bad = hygiene_grep()
     if bad:
         failures.append("forbidden constructs in lean sources: " + "; ".join(bad[:5]))
@@ -169,7 +176,7 @@ def main():
         proof_failures.append("translator failed: " + out.strip()[-300:])
 
     # 3. theorems
-    obligations, discharged, fails = lean_check(pid, spec, log)
+    obligations, discharged, fails = lean_check(pid, spec, log, tier)
     proof_failures += fails
     driver_ok = os.path.exists(lean_driver())
 
@@ -284,7 +291,7 @@ def write_evidence(pid, tier, seed, spec, t0, obligations, discharged, stats, vi
         "property_id": pid, "tier": tier, "seed": seed, "level": "proof",
         "coverage": {
             "obligations": obligations, "discharged": discharged,
-            "checker_cmd": "cd /verif/lean && lake build %s && lake env lean /verif/build/audit/%s.lean   (#print axioms of every listed theorem)" % (spec["module"], pid),
+            "checker_cmd": "cd /verif/lean && lake build %s && lake env lean /verif/build/audit/%s.lean   (#print axioms of every listed theorem)%s" % (spec["module"], pid, "; lake env leanchecker <each property module>" if tier == "thorough" else ""),
             "trusted_base": TRUSTED_BASE + spec.get("trusted", []),
             "theorems": spec["theorems"],
             "statement": spec.get("statement", ""),
